@@ -51,6 +51,16 @@ class Plain(object):
     pass
 
 
+class Falsy(object):
+    def __bool__(self):
+        return False
+
+
+class ZeroLen(object):
+    def __len__(self):
+        return 0
+
+
 def _fn():
     return None
 
@@ -173,6 +183,9 @@ def nondumpables():
         ("memoryview", memoryview(b"ab")), ("method", "x".upper), ("type-none", type(None)),
         ("exception", ValueError("x")), ("bool-in-tuple-with-object", (True, Plain())),
         ("mappingproxy", types.MappingProxyType({})), ("decimal-like-float-subclass-in-tuple", (FloatSub(2.0), 1)),
+        # falsy objects (bool() of a proxy is forwarded to the owner)
+        ("empty-list", []), ("empty-dict", {}), ("empty-set", set()), ("empty-bytearray", bytearray()), ("falsy-instance", Falsy()),
+        ("zero-len-instance", ZeroLen()),
     ]
     return vals
 
